@@ -782,14 +782,16 @@ def simplify_if_control_flow(source: str) -> str:
             continue
 
         if additions and replacements:
-            source = processing.alter_code(
+            new_source = processing.alter_code(
                 source,
                 root,
                 replacements=replacements,
                 additions=additions,
                 priority=("additions", "replacements"),
             )
+            if new_source == source:  # Nothing was done, and nothing would be on another attempt
+                return source
 
-            return simplify_if_control_flow(source)
+            return simplify_if_control_flow(new_source)
 
     return source
